@@ -17,6 +17,12 @@ LEVEL_TEXT = (
 )
 
 
+def tableish_sorted(e, uv):
+    """sorted(<a table of the object or its keys / items>, key=...)"""
+    a0 = e.args[0] if e.args else None
+    return a0 is not None and (bool(uv.tables_of(a0)) or (isinstance(a0, ast.Call) and isinstance(a0.func, ast.Attribute) and a0.func.attr in ("keys", "items", "values") and bool(uv.tables_of(a0.func.value))))
+
+
 def run(ctx):
     res = Result("C07")
     res.rules.update({
@@ -147,7 +153,13 @@ def run(ctx):
                         if is_sorted:
                             keyed = [kw for kw in e.keywords if kw.arg == "key"]
                             simple_key = all(isinstance(kw.value, ast.Lambda) and isinstance(kw.value.body, ast.Subscript) and isinstance(kw.value.body.slice, ast.Constant) and kw.value.body.slice.value == 0 for kw in keyed)
-                            res.add("S-HASHSORT", f, norm(it), "iteration", "ok" if simple_key else "unknown", "" if simple_key else "sorted with a custom key", loc(uv.fi, it))
+                            # a key that SUMMARISES a component (`key=lambda e: (e[0], len(e[1]))`) ties records that differ in it: the stable
+                            # sort leaves them in insertion order, which then enters the pre-image
+                            lossy = [kw for kw in keyed if isinstance(kw.value, ast.Lambda) and any(isinstance(x, ast.Call) and isinstance(x.func, ast.Name) and x.func.id in ("len", "sum", "min", "max", "hash") for x in ast.walk(kw.value.body))]
+                            if lossy and tableish_sorted(e, uv):
+                                res.violation("S-HASHSORT", f, norm(it)[:100], "iteration:total-order", f"the records are sorted by `{norm(lossy[0].value.body)[:40]}`, which is equal for records that differ (same source, equally long targets): ties stay in insertion order, so two hypergraphs with the same content hash differently", loc(uv.fi, it))
+                            else:
+                                res.add("S-HASHSORT", f, norm(it), "iteration", "ok" if simple_key else "unknown", "" if simple_key else "sorted with a custom key", loc(uv.fi, it))
                         elif tableish:
                             res.violation("S-HASHSORT", f, norm(it), "iteration", f"the pre-image is built by iterating `{norm(e)}` directly instead of sorted(...): insertion order leaks into the hash", loc(uv.fi, it))
                         elif inner_seq or (isinstance(e, (ast.Tuple, ast.List))) or (isinstance(e, ast.Call) and norm(e.func) in ("range", "enumerate", "zip")):
